@@ -145,3 +145,9 @@ C06 = codec_check("C06", "C06", "model_checking",
     rule="per schema with nested records (plus three flat representatives) the rich value is encoded by the reference encoders with every enumerated subset of record-field positions deleted (or JSON-nulled), in several key orders and with unknown fields injected, and decoded by the JSON, ROR2, query-parameter (QueryParamsReader.ReadRecord around the parameter) and untyped readers; the reported MissingRequiredFieldsError.Fields must equal the independently computed sorted set of full paths of absent required fields, and the partially decoded value must hold every present field; malformed leaves must raise a DeserializationError scoped at the leaf; states = schemas, transitions = decode calls; a class is (reader, deletion count | outcome)",
     assumptions=["the path syntax (a.b[1].c, map keys and union aliases as segments, query parameters prefixed by the parameter name) is the library's own API, taken from upstream's tests",
                  "the lenient-client clause is checked at wire level (C02)"])
+
+
+C04 = codec_check("C04", "C04", "model_checking",
+    rule="exhaustive enumeration of hostile inputs, each run through every reading program (19 hand-written Reader programs covering every Read*/Skip/RawBytes/ReadInterface/RawRecord combination + generated unmarshalers): (1) every string of <=L symbols over the ROR2 delimiter alphabet via NewRor2Reader and as a ParseQueryParams value, and whole as a query string; (2) every sequence of <=L JSON tokens; (3) every truncation and every single-byte deletion / substitution / insertion (22 bytes) of the reference encodings of the base and rich value of every wrapper in json/header/query, fed to the schema's own unmarshaler; (4) Go value trees of depth<=2 through NewInterfaceReader; the oracle is: the call returns (no panic; a 90 s no-progress watchdog flags hangs); states = inputs, transitions = decoder runs; failures are identified by the panic site in the library",
+    assumptions=["coverage-guided mutation beyond the exhaustive bounds is sampling, a different technique family, and is not done",
+                 "HTTP-level robustness (path, query, headers, tunnelled bodies, client-side responses) is the wire-level part of this check"])
